@@ -338,12 +338,12 @@ def build_shim():
     return so
 
 
-def gen_corpus(rng, n_sent, vocab):
+def gen_corpus(rng, n_sent, vocab, rate=0.35):
     words = ["w%d" % i for i in range(vocab)]
     lines = []
     for _ in range(n_sent):
         ln = rng.randrange(1, 9)
-        lines.append(" ".join(words[min(vocab - 1, int(rng.expovariate(0.35)))] for _ in range(ln)))
+        lines.append(" ".join(words[min(vocab - 1, int(rng.expovariate(rate)))] for _ in range(ln)))
     return "\n".join(lines) + "\n"
 
 
@@ -397,6 +397,11 @@ def tools_for(bdir, base, tier):
         Tool("lmplz-intermediate", [B + "/lmplz"] + lm + ["--text", corpus, "--intermediate", "out.int"],
              ["out.int.kenlm_intermediate", "out.int.vocab", "out.int.1", "out.int.2", "out.int.3"]),
         Tool("lmplz-stdio", [B + "/lmplz"] + lm, ["stdout"], stdin=corpus),
+        # class `external sort`: memory so small that every order spills several sorted runs to the temporary files and the
+        # merge (util/stream/sort.hh MergeQueue / OwningMergingReader, multi-pass Merge) reads them back with pread
+        Tool("lmplz-spill", [B + "/lmplz", "-o", "3", "--discount_fallback", "-S", "100K", "--sort_block", "4K", "--minimum_block", "1K",
+                             "--vocab_estimate", "200", "-T", "tmp/", "--text", os.path.join(base, "corpus_spill.txt"),
+                             "--arpa", "out.arpa"], ["out.arpa"]),
     ]
     for wm in ("mmap", "after"):
         for ty in ("probing", "trie"):
@@ -442,6 +447,7 @@ def prepare_inputs(ctx, bdir, base, shim):
     n_sent, vocab = (14, 9) if ctx.tier == "quick" else (60, 25)
     open(os.path.join(base, "corpus.txt"), "w").write(gen_corpus(ctx.rng, n_sent, vocab))
     open(os.path.join(base, "corpus2.txt"), "w").write(gen_corpus(ctx.rng, n_sent, vocab))
+    open(os.path.join(base, "corpus_spill.txt"), "w").write(gen_corpus(ctx.rng, 600, 60, rate=0.08))
     open(os.path.join(base, "sri.arpa"), "w").write(gen_sri_arpa(ctx.rng))
     open(os.path.join(base, "fv.txt"), "w").write(" ".join("w%d" % i for i in range(0, vocab, 2)) + " w1\n")
     os.makedirs(os.path.join(base, "tmp"), exist_ok=True)
